@@ -1928,7 +1928,12 @@ def _trans_and_rec_time_Markovian_const_trans_(node, sus_neighbors, tau, rec_rat
     commented out the more "sophisticated" approach.
     '''
     
-    duration = random.expovariate(rec_rate_fxn(node))
+    rec_rate = rec_rate_fxn(node)
+    if rec_rate>0:
+        duration = random.expovariate(rec_rate)
+    else: #never recovers, so every susceptible neighbor is eventually reached
+        duration = float('Inf')
+        return {v: random.expovariate(tau) for v in sus_neighbors}, duration
 
         
     trans_prob = 1-np.exp(-tau*duration)
